@@ -26,7 +26,7 @@ func init() {
 			if tier == "quick" {
 				return 2560
 			}
-			return 16000
+			return 32000
 		},
 		Run: runC11,
 		Required: []string{"genomes", "genomes.modular", "genomes.with_disabled", "genomes.with_parallel_links", "organisms.sequential", "organisms.parallel",
